@@ -570,7 +570,10 @@ class GroupBy:
             for p, k in zip(self._group_key_pointers, self._group_ikey.chunks):
                 k = k.to_numpy()
                 # the null code -1 must stay null rather than index the last pointer
-                chunks.append(np.where(k < 0, -1, p[k]))
+                null = k < 0
+                unified = np.full(len(k), -1, dtype=np.int64)
+                unified[~null] = p[k[~null]]
+                chunks.append(unified)
             self._group_key_pointers = None
         elif keep_chunked:
             # no pointers to unify, but we want to keep chunked so do nothing
